@@ -45,6 +45,11 @@ var imageBusy atomic.Bool
 var hookObserver atomic.Value // func(string)
 
 func observeHook(name string) bool {
+	if strings.HasPrefix(name, "wal.sync.") {
+		// fired by the WAL's background sync goroutine, concurrently with the goroutine of the step: never a park point, and
+		// judging an image from there would overlap the step's own image checks (imageBusy is one flag)
+		return true
+	}
 	if imageBusy.Load() {
 		return true // swallow: the point belongs to a shard opened on a crash image
 	}
